@@ -37,3 +37,43 @@ RUNTIME_PLAN = [
         {'kind': 'fn', 'match': r'^pub fn parse_end_of_input\('},
     ]},
 ]
+
+RUNTIME_PLAN += [
+    {'file': 'runtime/src/trace.rs', 'items': [
+        {'kind': 'type', 'match': r'^pub struct IndentedTracer$'},
+        # the trait relation is dropped (rule X6): Verus accepts no `requires` on trait impls, and the balance
+        # obligation on callers is exactly a `requires`
+        {'kind': 'impl', 'match': r'^impl ParseTracer for IndentedTracer$', 'as': 'IndentedTracer',
+         'header_rewrite': ('impl ParseTracer for IndentedTracer', 'impl IndentedTracer'), 'rule': 'X6',
+         'expect': ['print_informative', 'print_trace_start', 'print_trace_result', 'new']},
+    ]},
+]
+
+CODEGEN_PLAN = [
+    {'file': 'codegen/src/common.rs', 'items': [
+        {'kind': 'type', 'match': r'^pub enum Arity$'},
+    ]},
+    {'file': 'codegen/src/choice.rs', 'items': [
+        {'kind': 'fn', 'match': r'^fn combine_arities_for_choice\('},
+    ]},
+    {'file': 'codegen/src/grammar/generated.rs', 'items': [
+        {'kind': 'type', 'match': r'^pub type HexChar = char$'},
+        {'kind': 'type', 'match': r'^pub struct HexaEscape$'},
+        {'kind': 'type', 'match': r'^pub struct Utf8Escape$'},
+        {'kind': 'type', 'match': r'^pub enum SimpleEscape$'},
+        {'kind': 'type', 'match': r'^pub struct SimpleEscapeNewline$'},
+        {'kind': 'type', 'match': r'^pub struct SimpleEscapeCarriageReturn$'},
+        {'kind': 'type', 'match': r'^pub struct SimpleEscapeTab$'},
+        {'kind': 'type', 'match': r'^pub struct SimpleEscapeBackslash$'},
+        {'kind': 'type', 'match': r'^pub struct SimpleEscapeQuote$'},
+        {'kind': 'type', 'match': r'^pub struct SimpleEscapeDQuote$'},
+    ]},
+    {'file': 'codegen/src/string.rs', 'items': [
+        {'kind': 'impl_as_fns', 'match': r'^impl From<&HexaEscape> for char$', 'as': 'HexaEscape_to_char',
+         'subst': [('-> Self', '-> char')]},
+        {'kind': 'impl_as_fns', 'match': r'^impl From<&SimpleEscape> for char$', 'as': 'SimpleEscape_to_char',
+         'subst': [('-> Self', '-> char')]},
+        {'kind': 'impl_as_fns', 'match': r'^impl TryFrom<&Utf8Escape> for char$', 'as': 'Utf8Escape_to_char',
+         'subst': [('Result<Self, Self::Error>', 'Result<char, AnyhowError>')]},
+    ]},
+]
